@@ -1673,7 +1673,11 @@ func (g *c04o) splitCase(k int) (c04SplitCase, []c04Split) {
 	var attrs []string
 	var infos []c04SplitInfo
 	for _, s := range splits {
-		attrs = append(attrs, strings.Join(s.Path[2:], ".")+"["+s.Kind+"]")
+		an := pathKey(s.Path)
+		if len(s.Path) > 2 {
+			an = strings.Join(s.Path[2:], ".")
+		}
+		attrs = append(attrs, an+"["+s.Kind+"]")
 		infos = append(infos, c04SplitInfo{Path: pathKey(s.Path), Kind: s.Kind, Labels: c04Labels(s)})
 		if s.Needs["build-context"] != nil && !used["services.web.build"] {
 			c04SetPath(docs[0], []string{"services", "web", "build", "context"}, ".")
